@@ -2770,8 +2770,31 @@ def _shrink_hist(hc):
         yield dict(hc, nout="0/1")
 
 
+def _chain_valid(steps):
+    have_c = False
+    for st in steps:
+        if st["k"] == "add":
+            if "c" in (st["x"], st["y"]) and not have_c:
+                return False
+            have_c = True
+        elif st["o"] == "c" and not have_c:
+            return False
+    return True
+
+
 def shrink(case):
     op = case["op"]
+    if op == "chain":
+        # shorter sequences on the same two histograms (the histograms must keep their common edges)
+        steps = case["steps"]
+        for i in range(len(steps) - 1, -1, -1):
+            cand = steps[:i] + steps[i + 1:]
+            if cand and _chain_valid(cand):
+                yield dict(case, steps=cand)
+        for key in ("a", "b"):
+            if case[key].get("scale") is not None:
+                yield dict(case, **{key: dict(case[key], scale=None)})
+        return
     for key in ("h", "a"):
         if key in case and isinstance(case[key], dict) and "bins" in case[key]:
             for h2 in _shrink_hist(case[key]):
